@@ -151,6 +151,30 @@ pub fn worker(ctx: &mut Ctx) {
                 }
                 texts.push(text);
             }
+            // records whose captured text is hostile by construction (the real producer only captures
+            // the tokens under a lint, which rarely hold astral or control characters)
+            if r.chance(1, 2) {
+                let pieces: [&str; 18] = ["\u{1F980}", "\u{1D11E}", "\u{10FFFF}", "\u{7F}", "\u{85}", "\u{9B}", "\u{2028}", "\u{2029}", "\n", "\r\n", "\"", "\\", "\u{0}", "\u{1B}[0m", "\u{FFFF}", "\u{FEFF}", "\t", "\\u1f980"];
+                let mut ctx_toks = Vec::new();
+                for _ in 0..r.range(1, 3) {
+                    let mut content = String::new();
+                    for _ in 0..r.range(1, 4) {
+                        if r.chance(1, 3) {
+                            content.push_str(r.pick_str(&corpus.vocab));
+                        }
+                        content.push_str(r.pick_str(&pieces));
+                    }
+                    let kind = match r.below(4) {
+                        0 => harper_core::TokenKind::Word(None),
+                        1 => harper_core::TokenKind::Unlintable,
+                        2 => harper_core::TokenKind::Space(r.below(5)),
+                        _ => harper_core::TokenKind::Newline(r.below(3)),
+                    };
+                    ctx_toks.push(harper_core::FatStringToken { content, kind });
+                }
+                let kinds = [harper_core::linting::LintKind::Spelling, harper_core::linting::LintKind::Miscellaneous, harper_core::linting::LintKind::Formatting];
+                recs.push(Record::now(RecordKind::Lint { kind: *r.pick(&kinds), context: ctx_toks }));
+            }
             if r.chance(1, 3) {
                 let mut c = LintGroupConfig::default();
                 for key in &rule_keys {
@@ -160,7 +184,7 @@ pub fn worker(ctx: &mut Ctx) {
                         _ => {}
                     }
                 }
-                c.set_rule_enabled("Unknown \"rule\"\n", true);
+                c.set_rule_enabled("Unknown \"rule\"\n\u{1F980}\u{7F}\u{85}", true);
                 let at = r.below(recs.len() + 1);
                 recs.insert(at, Record::now(RecordKind::LintConfigUpdate(c)));
             }
